@@ -300,7 +300,20 @@ func jsonTexts(g *hx.Gen) []string {
 		`{"ifVer":7,"username":"alice","hostname":"laptop","exts":{"note":"x req=root@bastion y"}}`,
 		`{"username":"a req=root@bastion b","hostname":"h"}`,
 		`{"hostname":"h","sshClientVersion":"8.1","exts":{"k":" req=u@h SSHClientVersion=8.1 "}}`,
+		// long requests (sizes on both sides of 4 KiB and 64 KiB): complete ones, and ones that lack
+		// required members while a string inside carries text the legacy parser would accept
+		longJSON(3900, true), longJSON(4096, true), longJSON(5000, true), longJSON(70000, true),
+		longJSON(4096, false), longJSON(5000, false), longJSON(70000, false),
 	}
+}
+
+// longJSON: an attribute object padded to at least n bytes by an extension string
+func longJSON(n int, complete bool) string {
+	pad := strings.Repeat("x", n)
+	if complete {
+		return `{"ifVer":7,"username":"u","hostname":"h","sshClientVersion":"8.1","exts":{"pad":"` + pad + `","note":"tail"}}`
+	}
+	return `{"ifVer":7,"username":"","hostname":"","sshClientVersion":"","exts":{"pad":"` + pad + `","note":" req=root@prod.example.com HardKey=true SSHClientVersion=8.1 "}}`
 }
 
 // crossText: a JSON attribute object, complete or lacking / emptying required members, whose
@@ -381,6 +394,10 @@ func genMsg(g *hx.Gen, out *hx.Out) {
 	m := 0
 	for i := 0; i < *hx.Count/2; i++ {
 		a := genAttrs(g)
+		if i < 6 { // attribute sets whose encoding is long
+			a = "at(" + strings.Join([]string{"7", hx.HexS("alice"), hx.HexS("h1"), hx.HexS("8.1"), "0", "0", "0", "0", "nil",
+				"{s" + hx.HexS("pad") + ";s" + hx.HexS(strings.Repeat("y", []int{3900, 4096, 4200, 9000, 70000, 5000}[i])) + ";}"}, "/") + ")"
+		}
 		id := fmt.Sprintf("menc%d", m)
 		m++
 		args := []string{a}
